@@ -383,7 +383,14 @@ def o_pairs(o):
 
 def t_lazy(c):
     need(len(c) >= 2)
-    return f"ser_lazy (lazy_run Z Z Z.eqb lazy_f {b01(c[1])} None {zs(c[2:])})"
+    return f"ser_lazy_x (lazy_run_x Z Z Z.eqb lazy_fx {b01(c[1])} None {zs(c[2:])})"
+
+
+def o_lazy(o):
+    out = [1, len(o) - 1]
+    for x in o[1:]:
+        out += [0] if x[0] == "raised" else [1, int(x[0]), int(x[1])]
+    return out
 
 
 def t_lazy2(c):
@@ -514,14 +521,14 @@ KINDS = {
     "sss": (t_sss, o_qs), "acc": (t_acc, o_zs), "cyc": (t_cyc, o_zss), "closest": (t_closest, o_z), "round": (t_round, o_z),
     "uniq": (t_uniq, o_zs), "nget": (t_nget, o_nest), "nset": (t_nset, o_nest), "ndel": (t_ndel, o_nest),
     "sums": (t_sums, o_zss), "attr": (t_attr, o_z), "kwarg": (t_kwarg, o_kwarg), "chronon": (t_chronon, o_pairs),
-    "lazy": (t_lazy, o_pairs), "lazy2": (t_lazy2, o_lazy2),
+    "lazy": (t_lazy, o_lazy), "lazy2": (t_lazy2, o_lazy2),
     "setp": (t_setp, o_setp), "getp": (t_getp, None), "setdur": (t_setdur, o_setdur),   # getp: o_getp_for(case)
     "copyop": (t_copyop, o_copyop),
 }
 M1_KINDS = ("split_at", "op")
 M1_IMPORTS = "From MV Require Import Base.Res Model.EventTree Model.TreeOps Model.Ser."
 ALL_IMPORTS = ("From MV Require Import Base.Res Model.EventTree Model.TreeOps Model.Ser Model.Equality Model.Numbers Model.Tools "
-               "Model.IdTree Model.Heap Model.Ser2.")
+               "Model.IdTree Model.Heap Model.LazyExn Model.Ser2.")
 
 
 def group_of(case):
